@@ -49,9 +49,9 @@ let string_of_n (n : M.n) : string =
 
 (* ---------- bytes ---------- *)
 let byte_tab : M.byte array =
-  Array.init 256 (fun i -> match M.of_N (n_of_int i) with Some b -> b | None -> assert false)
+  Array.init 256 (fun i -> match M.byte_of_N (n_of_int i) with Some b -> b | None -> assert false)
 let int_of_byte (b : M.byte) : int =
-  match n_small (M.to_N b) with Some i -> i | None -> assert false
+  match n_small (M.byte_to_N b) with Some i -> i | None -> assert false
 let hexval c =
   match c with
   | '0'..'9' -> Char.code c - 48
@@ -186,7 +186,7 @@ let rec ty_of (e : sexp) : M.ty =
 let rec val_of (e : sexp) : M.val0 =
   match e with
   | A s -> M.VN (n_of_string s)
-  | Lst [A "b"; A h] -> M.VL (L.rev (L.rev_map (fun b -> M.VN (M.to_N b)) (bytes_of_hex h)))
+  | Lst [A "b"; A h] -> M.VL (L.rev (L.rev_map (fun b -> M.VN (M.byte_to_N b)) (bytes_of_hex h)))
   | Lst [A "b"] -> M.VL []
   | Lst (A "l" :: r) -> M.VL (L.map val_of r)
   | Lst [A "v"; A i; x] -> M.VV (n_of_string i, val_of x)
